@@ -107,20 +107,45 @@ def run_differential(prog, script, fail: Callable[[str, Optional[str]], None], c
     try:
         conn = pipe.conn
         if True:
-            for si, seg in enumerate(segs):
-                drv.segment = si
-                mode = segment_modes[si] if segment_modes else "direct"
-                drv.tmpl_mode = "template" if mode in ("pre", "pre-late") else "concrete"
-                tv = dict(templates[si]) if per_segment else dict(templates or {})
+            ahead = {"built": False, "error": None}
+
+            def setup(k):
+                drv.segment = k
+                m = (segment_modes[k] if segment_modes else "direct").replace("+cb", "")
+                drv.tmpl_mode = "template" if m in ("pre", "pre-late") else "concrete"
                 if per_segment:
-                    drv.tmpl_values = tv
-                try:
-                    drv.top_block(seg)
-                except hc.ControllerFault:
-                    raise
-                except Exception as e:
-                    fail(f"segment {si}: the SDK could not compile a valid host program: {type(e).__name__}: {str(e)[:160]}", None)
+                    drv.tmpl_values = dict(templates[k])
+
+            for si, seg in enumerate(segs):
+                mode = segment_modes[si] if segment_modes else "direct"
+                # "+cb": the segment is sent with a completion callback in which the host program queues the operations of
+                # the NEXT segment (they belong to the next subroutine, whichever route sends this one)
+                with_cb = mode.endswith("+cb") and si < len(segs) - 1
+                mode = mode.replace("+cb", "")
+                tv = dict(templates[si]) if per_segment else dict(templates or {})
+                if ahead["error"] is not None:
+                    fail(f"segment {si}: the SDK could not compile a valid host program: {ahead['error']}", None)
                     return {"ok": False}
+                if not ahead["built"]:
+                    setup(si)
+                    try:
+                        drv.top_block(seg)
+                    except hc.ControllerFault:
+                        raise
+                    except Exception as e:
+                        fail(f"segment {si}: the SDK could not compile a valid host program: {type(e).__name__}: {str(e)[:160]}", None)
+                        return {"ok": False}
+                ahead["built"] = False
+                callback = None
+                if with_cb and mode != "pre-late":
+                    def callback(k=si + 1):
+                        setup(k)
+                        try:
+                            drv.top_block(segs[k])
+                        except Exception as e:     # noqa
+                            ahead["error"] = f"{type(e).__name__}: {str(e)[:160]}"
+                        ahead["built"] = True
+                        count("segments_queued_from_a_completion_callback", 1)
                 try:
                     if pending_sub is not None:
                         # a subroutine compiled earlier is committed only now, after more operations were queued
@@ -139,10 +164,14 @@ def run_differential(prog, script, fail: Callable[[str, Optional[str]], None], c
                         sub = conn.compile()
                         if sub is not None:
                             sub.instantiate(conn.app_id, tv)
-                            conn.commit_subroutine(sub)
+                            conn.commit_subroutine(sub, block=callback is None, callback=callback)
+                        elif callback is not None:
+                            callback()
                         count("precompiled_segments", 1)
                     else:
-                        conn.flush()
+                        conn.flush(block=callback is None, callback=callback)
+                        if callback is not None and not ahead["built"]:
+                            callback()      # nothing was pending, nothing was sent: the host queues its next round anyway
                 except hc.ControllerFault as cf:
                     key = None
                     m = re.search(r"Trying to return register (M\d+) but it does not have value", str(cf.exc))
